@@ -393,23 +393,34 @@ Qed.
 
 (* ------------------------------------------------------------------ all interleavings (repaired code) *)
 
-Lemma interleaving D : wf_dict D = true -> forall ops f, InvF D f ->
-  match run_o true D ops f with
-  | Ok f' => InvF D f' /\ run_t D ops (map abs_p f) = Ok (map abs_p f') /\ abs_of f' = Ok (map abs_p f')
-  | Exn e => run_t D ops (map abs_p f) = Exn e
+Definition InvS (D : dict) (st : ostate) : Prop := InvF D (fst st) /\ Forall (InvF D) (snd st).
+Definition abs_st (st : ostate) : tstate := (map abs_p (fst st), map (map abs_p) (snd st)).
+
+Lemma interleaving D : wf_dict D = true -> forall ops st, InvS D st ->
+  match run_os true D ops st with
+  | Ok st' => InvS D st' /\ run_ts D ops (abs_st st) = Ok (abs_st st') /\
+              abs_of (fst st') = Ok (map abs_p (fst st'))
+  | Exn e => run_ts D ops (abs_st st) = Exn e
   end.
 Proof.
-  intros Hw ops. induction ops as [|o ops IH]; intros f Hi; cbn [run_o run_t].
-  - split; [assumption|]. split; [reflexivity | apply (abs_of_inv D); assumption].
-  - destruct o; cbn [step_o step_t bind].
+  intros Hw ops. induction ops as [|o ops IH]; intros [f sv] [Hi Hs]; cbn [run_os run_ts].
+  - split; [split; assumption|]. split; [reflexivity | apply (abs_of_inv D); assumption].
+  - cbn [fst snd] in Hi, Hs. change (abs_st (f, sv)) with (map abs_p f, map (map abs_p) sv).
+    destruct o; cbn [step_os step_ts bind].
     + destruct (expand_of_refines true D f Hw Hi) as (f' & He & Ha & Hi' & _).
-      rewrite He. cbn [bind]. rewrite <- Ha. apply IH. apply Hi'. reflexivity.
-    + pose proof (shrink_of_refines D f Hi) as Hs.
+      rewrite He. cbn [bind]. rewrite <- Ha.
+      apply (IH (f', sv)). split; [apply Hi'; reflexivity | assumption].
+    + pose proof (shrink_of_refines D f Hi) as Hsh.
       destruct (shrink_of true f) as [f'|e]; cbn [bind].
-      * destruct Hs as [Hs1 Hs2]. rewrite Hs1. cbn [bind]. apply IH. assumption.
-      * rewrite Hs. reflexivity.
-    + apply IH. assumption.
-    + apply IH. assumption.
+      * destruct Hsh as [Hs1 Hs2]. rewrite Hs1. cbn [bind].
+        apply (IH (f', sv)). split; assumption.
+      * rewrite Hsh. reflexivity.
+    + apply (IH (f, f :: sv)). split; [assumption | constructor; assumption].
+    + apply (IH (f, sv)). split; assumption.
+    + destruct sv as [|g r]; cbn [map].
+      * apply (IH (f, [])). split; assumption.
+      * apply Forall_cons_inv in Hs as [Hg Hr].
+        apply (IH (g, f :: r)). split; [assumption | constructor; assumption].
 Qed.
 
 (* printing never fails on a tree without the cyclic group *)
@@ -480,11 +491,11 @@ Lemma expand_after_shrink_refuted :
 Proof. eexists. eexists. split; [vm_compute; reflexivity|]. split; [vm_compute; reflexivity|]. vm_compute. discriminate. Qed.
 
 (* heap layer and ownership-tree layer agree on a finite family: every op sequence
-   of length <= 4 over {expand, shrink, copy} on the two witnesses, both switches *)
+   of length <= 4 over {expand, shrink, copy, swap} on the two witnesses, both switches *)
 Fixpoint all_ops (n : nat) : list (list op) :=
   match n with
   | 0 => [[]]
-  | S k => [] :: flat_map (fun l => [OpExpand :: l; OpShrink :: l; OpCopy :: l]) (all_ops k)
+  | S k => [] :: flat_map (fun l => [OpExpand :: l; OpShrink :: l; OpCopy :: l; OpSwap :: l]) (all_ops k)
   end.
 
 Definition res_forest_eqb (a b : res forest) : bool :=
